@@ -1,4 +1,5 @@
 import Witverif.Proofs.RustProfile
+import Witverif.Proofs.SpecRoundtrip
 import Witverif.Props.C01
 /-!
 # C05 — Rust guest bindings carry every value across the boundary unchanged
@@ -158,6 +159,26 @@ theorem rust_import_roundtrip_partial (p : Nat) (hp : p = 4 ∨ p = 8) (hR : Spe
     ∃ cs, evalList { p, inputs := [.v v] } [] es = some (cs.map MV.c) ∧
       Spec.liftFlat p (Spec.lowerFlat p t v {}).2.mem t cs = some v :=
   ⟨(Spec.lowerFlat p t v {}).1, (rust_lower_flat_is_spec p hp realloc t v hm hv ss es h).2, hR t v {} hv⟩
+
+/-- **Guest → host, memory-free types — unconditional.**  Whatever Rust code passes (import argument or
+export result of a type that does not use linear memory: any nesting of records, tuples, flags, enums,
+variants/options/results with joined slots, fixed-length lists, scalars, handles), the generated
+lowering (Rust configuration, either realloc mode, both pointer widths) leaves core values from which
+the host's `lift_flat` recovers exactly that value, whatever the memory contains.
+(`C01.lower_flat_correct` ∘ `liftFlat_lowerFlat`.) -/
+theorem rust_import_roundtrip_memfree (p : Nat) (hp : p = 4 ∨ p = 8) (realloc : Bool) (m : Spec.Mem)
+    (t : Ty) (v : Val) (hm : memFree t = true) (hv : Spec.hasTy t v = true) (ss : List Stmt) (es : List Expr)
+    (h : lower (rustCfg realloc) 0 t (.inp 0) = .ok (ss, es)) :
+    ∃ cs, evalList { p, inputs := [.v v] } [] es = some (cs.map MV.c) ∧ Spec.liftFlat p m t cs = some v :=
+  ⟨(Spec.lowerFlat p t v {}).1, (rust_lower_flat_is_spec p hp realloc t v hm hv ss es h).2,
+   liftFlat_lowerFlat p m v t {} hm hv⟩
+
+/-- the spec's own round trip, memory-free types (so `SpecRoundtripFlat` is only open for types that
+use linear memory) -/
+theorem spec_roundtrip_flat_memfree (p : Nat) (m : Spec.Mem) (t : Ty) (v : Val) (st : Spec.St)
+    (hm : memFree t = true) (hv : Spec.hasTy t v = true) :
+    Spec.liftFlat p m t (Spec.lowerFlat p t v st).1 = some v :=
+  liftFlat_lowerFlat p m v t st hm hv
 
 /-! ## Non-vacuity -/
 
